@@ -8,6 +8,7 @@ mod suite06;
 mod suite07;
 #[cfg(feature = "std")]
 mod suite08;
+#[cfg(feature = "std")]
 mod suite13;
 mod suite14;
 mod suite16;
@@ -28,6 +29,7 @@ fn exec(suite: u32, input: &[u64]) -> Vec<u64> {
         70 => suite07::exec(input),
         #[cfg(feature = "std")]
         80 | 90 | 100 | 110 | 120 | 200 => suite08::exec(suite, input),
+        #[cfg(feature = "std")]
         130 => suite13::exec(input),
         140 => suite14::exec140(input),
         150 => suite14::exec150(input),
@@ -105,6 +107,7 @@ fn main() {
                 120 => suite08::gen120(tier, &mut rng, &mut emit),
                 #[cfg(feature = "std")]
                 200 => suite08::gen200(tier, &mut rng, &mut emit),
+                #[cfg(feature = "std")]
                 130 => suite13::gen(tier, &mut rng, &mut emit),
                 140 => suite14::gen140(tier, &mut rng, &mut emit),
                 150 => suite14::gen150(tier, &mut rng, &mut emit),
